@@ -32,6 +32,15 @@ def universe():
         extra.add(p + "/zz")            # below a file or an absent child of a directory
         extra.add(p + "/a")
     extra |= {"zz", "a/zz/a", ".", "a/../a.txt", "A.TXT", "é", "é/日", "é/日/a b.txt/"}
+    # one-byte names next to the embedded ones, and names in which a backslash stands where an embedded path has a
+    # separator: one (absent) component to this crate, whatever the embedding library makes of it
+    extra |= {"g", "x", "_", "0", "z"}
+    for r in files:
+        if "/" in r:
+            extra.add(r.replace("/", "\\"))
+            extra.add(r.replace("/", "\\", 1))
+            head, _, tail = r.rpartition("/")
+            extra.add(head + "\\" + tail)
     return sorted(paths | extra)
 
 
